@@ -180,6 +180,27 @@ def _mol(ctx, case):
                     if ln > 1e-9 and abs(np.dot(nrm / ln, X[a.GetIdx()] - X[nbs[0]])) > 0.25:
                         ctx.count("skipped:embedding-with-pyramidal-sp2-centre")
                         return
+    # input sanity: a formal double bond is planar - its substituents on the two ends are eclipsed or anti (torsion 0 or
+    # 180 degrees). Embeddings of strained medium-ring E-alkenes (the E isomer of a fusion double bond of two 8-11
+    # membered rings) come out twisted by 15-40 degrees. The library calls six atoms planar when every atom is within
+    # 1 A of the plane through any three others; with obtuse base triangles a twist of 20 degrees already exceeds that,
+    # i.e. such a conformer sits on the planarity decision (thorough sweep, seed 5: C1CCCC/C2=C(/CCCC1)CCCCCCCC2 with
+    # torsions 177 / 15 / 12 / 157 degrees is not perceived as a planar bond). Conformers twisted by more than 12
+    # degrees are not inputs of C14 ("reasonable 3D geometry", general position as in C07).
+    for bnd in m.GetBonds():
+        if bnd.GetBondType() == Chem.BondType.DOUBLE and not bnd.GetIsAromatic():
+            x_, y_ = bnd.GetBeginAtom(), bnd.GetEndAtom()
+            for p_ in (n.GetIdx() for n in x_.GetNeighbors() if n.GetIdx() != y_.GetIdx()):
+                for q_ in (n.GetIdx() for n in y_.GetNeighbors() if n.GetIdx() != x_.GetIdx()):
+                    b1, b2, b3 = X[x_.GetIdx()] - X[p_], X[y_.GetIdx()] - X[x_.GetIdx()], X[q_] - X[y_.GetIdx()]
+                    n1, n2 = np.cross(b1, b2), np.cross(b2, b3)
+                    l1, l2 = np.linalg.norm(n1), np.linalg.norm(n2)
+                    if l1 < 1e-6 or l2 < 1e-6:
+                        continue
+                    tors = np.degrees(np.arccos(np.clip(np.dot(n1, n2) / (l1 * l2), -1.0, 1.0)))
+                    if min(tors, 180.0 - tors) > 12.0:
+                        ctx.count("skipped:embedding-with-twisted-double-bond")
+                        return
     ph = _classify(m)
     fam = "a1" if not ph else "a2"
     ctx.count(f"{fam}_molecules")
